@@ -491,6 +491,23 @@ example : rcReadAll (fun _ => 2) (fun _ => 3) 20 [[97, 98, 10, 99], [], [100, 10
 example : KV.Tokenize.tokens isSpace true [32, 97, 98, 32, 32, 99, 10] = [[97, 98], [99]] ∧
     KV.Tokenize.tokens isSpace false [32, 97, 32] = [[], [97], []] := by decide
 
+/-- `ReadWordSameLine` at a window boundary (page 4, windows of 8 bytes, file of 13 bytes): the delimiter is the last
+byte of the first mmap window, the line goes on in the second — which is the FINAL window, so `at_end_` is set by
+the very Shift that the space-skipping loop issues.  The words of the line are all returned, then the newline
+stops the loop; file, pipe and istream agree (instances of `op_transparent`, here by evaluation). -/
+example :
+    let bytes := [97, 98, 32, 99, 100, 101, 102, 32, 103, 104, 32, 105, 10]
+    let ops := [Op.readWordSameLine isSpace, .readWordSameLine isSpace, .readWordSameLine isSpace,
+                .readWordSameLine isSpace, .readWordSameLine isSpace, .get, .readWordSameLine isSpace]
+    let env : Env := { cfg := { page := 4 }, bytes := bytes, orc := fun _ => 1000 }
+    transcript env grammar ops (init env 1 .file) =
+      [(.bytes [97, 98], 2), (.bytes [99, 100, 101, 102], 7), (.bytes [103, 104], 10), (.bytes [105], 12),
+       (.noWord, 12), (.char 10, 13), (.noWord, 13)] ∧
+    transcript env grammar ops (init env 1 .file) = transcript env grammar ops (init env 1 .pipe) ∧
+    transcript env grammar ops (init env 1 .file) = transcript env grammar ops (init env 1 .lazy) ∧
+    (init env 1 .file).win.length = 8 ∧ (init env 1 .file).atEnd = false := by
+  decide
+
 /-! ## Old: today's code violates the property (the witnesses are replayed on the real code by the check) -/
 section Old
 
